@@ -19,7 +19,7 @@ func verifIncrementalTrace(fore int) {
 		_ = bt.InsertRecord(n, uint64(i))
 	}
 	bt.EnableLazyRebalancing(LazyRebalancingConfig{Enabled: true, Threshold: 0.05, MaxDelay: time.Hour, BatchSize: 10})
-	bt.lazyState.UnderflowNodes = []uint64{1, 2, 3}
+	bt.lazyState.UnderflowNodes = []uint64{1, 2, 3} // before the goroutine exists
 	cfg := DefaultIncrementalConfig()
 	cfg.Interval = time.Microsecond
 	cfg.Budget = time.Millisecond
@@ -41,7 +41,12 @@ func verifIncrementalTrace(fore int) {
 			_ = bt.IsIncrementalRebalancingEnabled()
 		}
 		if !vrt.Symbolic() && k%16 == 0 {
-			bt.lazyState.UnderflowNodes = []uint64{1, 2, 3} // keep the loop busy in the native run (this write is itself foreground work)
+			// keep the loop busy in the native run; done the way a foreground call has to do it, under the state's lock
+			bt.lazyMu.Lock()
+			if bt.lazyState != nil {
+				bt.lazyState.UnderflowNodes = []uint64{1, 2, 3}
+			}
+			bt.lazyMu.Unlock()
 		}
 	}
 	vrt.AssertNoErr(bt.StopIncrementalRebalancing(), "stop-returns-ok")
